@@ -391,9 +391,9 @@ class C03(Prop):
         for n in range(0, 6):
             for t in itertools.product("a ,", repeat=n):
                 yield ["c03.canon", ["".join(t)]]
-        for _ in range(300 if quick else 20000):
+        for _ in range(300 if quick else 4000):
             yield ["c03.canon", ["".join(rng.choice("ab ,,  ") for _ in range(rng.randint(0, 9))) for _ in range(rng.randint(0, 4))]]
-        for _ in range(300 if quick else 20000):
+        for _ in range(300 if quick else 4000):
             yield ["c03.merge", enc_h(rnd_headers(rng, 4)), enc_h(rnd_headers(rng, 4)), enc_h(rnd_headers(rng, 5))]
         # ---- systematic: seeds x definitions ----
         bases = []
@@ -404,7 +404,7 @@ class C03(Prop):
                 for st2 in (1, 2, 3, 4, 5, 0):
                     if st2 != st:
                         bases.append((st2, [], e))
-        n_rand_bases = 25 if quick else 1500
+        n_rand_bases = 25 if quick else 100
         for _ in range(n_rand_bases):
             e = rnd_result(rng, 0.95)
             other = [rng.choice(CODES) for _ in range(rng.choice([0, 0, 1, 2]))]
@@ -427,7 +427,7 @@ class C03(Prop):
                 if ds:
                     yield case(st, other, e, rng.choice(ds)[1])
         # ---- random pairs ----
-        for _ in range(2500 if quick else 150000):
+        for _ in range(2500 if quick else 30000):
             e = rnd_result(rng, 0.85)
             st = rng.randint(0, 5)
             other = [rng.choice(CODES) for _ in range(rng.choice([0, 0, 1, 3]))]
@@ -440,7 +440,7 @@ class C03(Prop):
                     c = list(rewrites(st, other, a, rng))
                     a = rng.choice(c)
             yield case(st, other, e, a)
-        for _ in range(500 if quick else 30000):
+        for _ in range(500 if quick else 6000):
             yield case(rng.randint(0, 5), [rng.choice(CODES)], rnd_result(rng, 0.8), rnd_result(rng, 0.8))
 
 
